@@ -182,7 +182,7 @@ def runOps {V N} [Geo V N] [ShowV V] [ShowN N] (w dim3 sw : Bool) : Mesh V N →
     -- a mesh that has lost all its triangles is outside the explored domain of `scaled`: the operation is skipped
     if s.indices.isEmpty then ["emptysc"] :: runOps w dim3 sw s ops else
     -- `sw`: `scaled` as written (cached pseudo-normals scaled and normalised); otherwise with the fix (recomputed)
-    match (if sw then some (scaledW dim3 (ShowV.scaleAct xs) (ShowN.scaleN xs) s) else scaled dim3 (ShowV.scaleAct xs) s) with
+    match (if sw then some (scaledW dim3 (ShowV.scaleAct xs) (ShowN.scaleN xs) s) else scaled dim3 (mirrorOf xs) (ShowV.scaleAct xs) s) with
     | none => [["panic"]]
     | some s' => showState w dim3 s' :: runOps w dim3 sw s' ops
 
@@ -545,7 +545,7 @@ def finalState {V N} [Geo V N] [ShowV V] [ShowN N] (dim3 : Bool) (m : RawMesh V)
         | .ok rhs => append dim3 s rhs
         | _ => some s
       | .tv xs => transformVertices (ShowV.isoAct xs) (ShowN.isoRot xs) s
-      | .sc xs => if s.indices.isEmpty then some s else scaled dim3 (ShowV.scaleAct xs) s) s
+      | .sc xs => if s.indices.isEmpty then some s else scaled dim3 (mirrorOf xs) (ShowV.scaleAct xs) s) s
   | _ => none
 
 inductive Hit where
